@@ -34,6 +34,7 @@ type mvccEngine struct {
 	delta     bool
 	nw        int
 	bkdir     string         // directory of the last store
+	rr        int            // Visitor refresh rate set by cfg rr=<n> (0: default)
 	lastSteps int            // file-system steps counted by the last crashload
 	old       []*nitro.Nitro // instances replaced by `load`, closed at teardown
 
@@ -217,6 +218,12 @@ func (e *mvccEngine) step(toks []string) string {
 			}
 		}
 		e.db = nitro.NewWithConfig(cfg)
+		if rr, ok := natArg(toks, "rr"); ok {
+			// refresh rate of the iterators the Visitor / StoreToDisk use (default 10000: only very large
+			// shards ever refresh)
+			e.rr = rr
+			e.db.VerifSetRefreshRate(rr)
+		}
 		for i := 0; i < nw; i++ {
 			e.writers = append(e.writers, e.db.NewWriter())
 		}
